@@ -3,7 +3,7 @@
    (extracted) over the implementation's outputs. *)
 From Coq Require Import List NArith ZArith Bool.
 Import ListNotations.
-From PF Require Import Opcodes RefTable Config Sim Ref Lex Envelope.
+From PF Require Import Opcodes RefTable Config Sim Ref Lex Envelope Entropy Mutators.
 Local Open Scope N_scope.
 
 (* C04: decodes completely, exactly one STOP, last *)
@@ -83,3 +83,99 @@ Definition oracle_C11 (c : config) (out : list N) : bool :=
       (c_min c + 1 <=? n) && (n <=? 3 * N.max (c_min c) (c_max c) + 4)
   | None => false
   end.
+
+(* ---------- C18: what a correct adapter result looks like (run on the implementation's results) ---------- *)
+Definition ok_choose_index (n v : N) : bool := if n =? 0 then v =? 0 else v <? n.
+Definition ok_gen_range (a b v : N) : bool := if b <=? a then v =? a else (a <=? v) && (v <? b).
+Definition ok_ascii (c : N) : bool := (32 <=? c) && (c <=? 126).
+Definition ok_bytes (len : N) (bs : list N) : bool := N.of_nat (length bs) =? len.
+
+(* ---------- C16: the documented contract of each mutator, as a check of (input, output) ---------- *)
+Fixpoint n_range (n : nat) : list N :=      (* [0; 1; ...; n-1] *)
+  match n with O => [] | S k => n_range k ++ [N.of_nat k] end.
+
+Definition one_bit_apart (w : N) (v v' : Z) : bool :=
+  existsb (fun k => N.lxor (to_unsigned w v) (to_unsigned w v') =? 2 ^ k) (n_range (N.to_nat w)).
+
+Definition contract_int (w : N) (bounds : list Z) (m : mutator) (v v' : Z) : bool :=
+  match m with
+  | MBitflip => one_bit_apart w v v'
+  | MBoundary => existsb (Z.eqb v') bounds
+  | MOffByOne => Z.eqb v' (wrap w (v + 1)) || Z.eqb v' (wrap w (v - 1))
+  | _ => false
+  end.
+
+Definition contract_float (m : mutator) (v' : N) : bool :=
+  match m with MBoundary => existsb (N.eqb v') float_boundaries | _ => false end.
+
+Fixpoint is_prefix (a b : list N) : bool :=      (* a is a prefix of b *)
+  match a, b with
+  | [], _ => true
+  | x :: a', y :: b' => (x =? y) && is_prefix a' b'
+  | _ :: _, [] => false
+  end.
+
+(* number of positions at which two lists of equal length differ, and a check of the new items *)
+Fixpoint diff_ok (p : N -> bool) (a b : list N) : option nat :=
+  match a, b with
+  | [], [] => Some O
+  | x :: a', y :: b' =>
+      match diff_ok p a' b' with
+      | Some n => if x =? y then Some n else if p y then Some (S n) else None
+      | None => None
+      end
+  | _, _ => None
+  end.
+
+Definition contract_seq (is_str : bool) (m : mutator) (v v' : list N) : bool :=
+  match m with
+  | MStringLen =>
+      is_prefix v' v
+      || list_eqb v' (v ++ v)
+      || (is_prefix v v'
+          && let ext := skipn (length v) v' in
+             Nat.leb 1 (length ext) && Nat.leb (length ext) 9
+             && forallb (fun c => if is_str then (97 <=? c) && (c <=? 122) else c <? 256) ext)
+  | MCharacter =>
+      match diff_ok (fun c => if is_str then (33 <=? c) && (c <=? 126) else c <? 256) v v' with
+      | Some n => Nat.leb n 1 && negb (Nat.eqb (length v) 0)
+      | None => false
+      end
+  | _ => false
+  end.
+
+Definition contract_memo (m : mutator) (v v' : N) : bool :=
+  match m with
+  | MOffByOne => (v' =? sat_add1 v) || (v' =? sat_sub1 v)
+  | MMemoIndex false => (v' =? sat_add1 v) || (v' =? sat_sub1 v) || (v' =? v)
+  | MMemoIndex true => v' <? 1000
+  | _ => false
+  end.
+
+(* TypeConfusion::post_process: delta = the bytes just emitted, res = what stands afterwards *)
+Definition contract_post (m : mutator) (delta res : list N) (fired : bool) : bool :=
+  match m with
+  | MTypeConf true =>
+      if fired then
+        match delta with
+        | b :: _ =>
+            negb (byte_type b =? 0)
+            && match lex_one res with
+               | Some (t, []) => typeconf_repl t && negb (stack_type (fst t) =? byte_type b)
+                                 && list_eqb (encode t) res
+               | _ => false
+               end
+        | [] => false
+        end
+      else list_eqb res delta
+  | _ => negb fired && list_eqb res delta
+  end.
+
+(* C15: which mutators implement which value method (the others return None without drawing) *)
+Definition applies_int (m : mutator) : bool :=
+  match m with MBitflip | MBoundary | MOffByOne => true | _ => false end.
+Definition applies_float (m : mutator) : bool := match m with MBoundary => true | _ => false end.
+Definition applies_seq (m : mutator) (v : list N) : bool :=
+  match m with MStringLen => true | MCharacter => negb (Nat.eqb (length v) 0) | _ => false end.
+Definition applies_memo (m : mutator) : bool :=
+  match m with MOffByOne | MMemoIndex _ => true | _ => false end.
